@@ -490,6 +490,10 @@ func (e *vEnv) exec(f []string) {
 	case "STOP":
 		h := e.hosts[int(vU(f[1]))]
 		err := h.nh.StopReplica(vU(f[2]), vU(f[3]))
+		// dragonboat's engine workers drop a stopped replica lazily (on a signal or on their 200 ms reload ticker) and panic
+		// ("from two incarnations found") when another replica of the same shard is started on the NodeHost before every worker has
+		// reloaded.  That is dragonboat's business, not the agent's: let the workers reload before the script goes on.
+		time.Sleep(260 * time.Millisecond)
 		e.emit(map[string]interface{}{"k": "STOP", "err": fmt.Sprintf("%v", err)})
 	case "WAIT": // WAIT h shard [nmembers]: until not pending, a leader is known (and membership size matches)
 		h := e.hosts[int(vU(f[1]))]
